@@ -171,8 +171,10 @@ def cover_select(behs, limit, rnd):
 # ------------------------------------------------------------------------------------------------
 # running the real adapter
 # ------------------------------------------------------------------------------------------------
-def run_session(exe, script, outdir, puppet, timeout=60):
+def run_session(exe, script, outdir, puppet, timeout=200):
     sid = script["id"]
+    script = dict(script)
+    script.setdefault("req_timeout_ms", 60000)      # generous: `launch` parses DWARF, the machine may be loaded
     sp, tp = outdir / f"{sid}.json", outdir / f"{sid}.ndjson"
     sp.write_text(json.dumps(script))
     if tp.exists():
@@ -462,14 +464,23 @@ def run(rep, tier, replay):
         for f in futs:
             sid, status, ev = f.result()
             results[sid] = (status, ev)
-    # a session that left no complete trace (harness wedged/killed, e.g. under machine load) says nothing yet:
-    # re-run it alone; only a reproducible hang is data
+    # A session that left no complete trace, or in which a request was not answered within the (generous)
+    # timeout, is re-run alone.  If it persists it is a TOOL ERROR (exit 2), never a VIOLATION: on the unchanged
+    # tree such hangs were only ever seen in `launch` under heavy machine load and could not be attributed to the
+    # adapter (Child::install waits on -1; DWARF loading is slow under load).
+    def incomplete(sid):
+        st, ev = results[sid]
+        return st != "ok" or not ev or any(e["ev"] in ("hang", "bad_stream") for e in ev)
     for s in scripts:
-        if results[s["id"]][0] != "ok" or any(e["ev"] == "hang" for e in results[s["id"]][1]):
-            vlib.log(f"[c12] session {s['id']}: {results[s['id']][0]}, re-running alone")
+        if incomplete(s["id"]):
+            vlib.log(f"[c12] session {s['id']}: incomplete ({results[s['id']][0]}), re-running alone")
             stats["retried"] = stats.get("retried", 0) + 1
-            sid, status, ev = run_session(exe, s, work, puppet, timeout=90)
+            sid, status, ev = run_session(exe, s, work, puppet, timeout=300)
             results[sid] = (status, ev)
+            if incomplete(sid):
+                last = [e for e in ev if e["ev"] == "request"]
+                raise vlib.ToolError(f"session {sid} hung/crashed twice (status {status}, last request "
+                                     f"{last[-1]['command'] if last else 'none'}); trace {work}/{sid}.ndjson")
     t_run = time.time()
 
     # ---- validate every recorded session with TLC ----
